@@ -45,6 +45,9 @@ def gen_script(rng, stage=None, maxlen=8):
     tk = 0
     if st == "Take":
         tk = rng.randrange(0, n + 3)
+        if rng.random() < 0.12:
+            # "first n for any n >= 0": the usual spellings of "no limit"
+            tk = rng.choice([1 << 31, 1 << 40, 1 << 62, (1 << 63) - 1])
         cfg += " n=%d" % tk
     outs = OUTS[st]
     total = sum(len(v) for v in spec(ls.parse_cfg(cfg), xs).values()) if st != "Take" else n
